@@ -101,11 +101,12 @@ def run(ctx, model_ok=True):
     base = len(jobs)
     for v in ["0", "1", "254", "255", "256", "-1", "abc", ""]:
         edge.append((d, base + len(edge), ("dos33", "5.25in", "do", None), v, False))
-    for v in ["A", "A" * 15, "A" * 16, "1ABC", "A.B", "A B", "", "a2345678901234."]:
+    # (also: letters that are not ASCII but whose upper case is - the name is stored byte by byte)
+    for v in ["A", "A" * 15, "A" * 16, "1ABC", "A.B", "A B", "", "a2345678901234.", "A\u017f", "\u0131", "D\u0131\u017fK", "A\ufb01", "\u00df", "ABCDEFGHIJKLMN\u017f", "CAF\u00c9"]:
         edge.append((d, base + len(edge), ("prodos", "5.25in", "po", None), v, False))
-    for v in ["A", "A" * 7, "A" * 8, "A:B", "", "VOL$"]:
+    for v in ["A", "A" * 7, "A" * 8, "A:B", "", "VOL$", "A\u017f", "\u00df", "CAF\u00c9"]:
         edge.append((d, base + len(edge), ("pascal", "5.25in", "po", None), v, False))
-    for v in ["LABEL", "TOOLONGLABEL12", "A" * 11, "lower"]:
+    for v in ["LABEL", "TOOLONGLABEL12", "A" * 11, "lower", "A\u017f", "\u00df"]:
         edge.append((d, base + len(edge), ("fat", "5.25in-ibm-dsdd9", "img", None), v, False))
     for o, k, ty in [("dos33", "5.25in", "do"), ("dos32", "5.25in", "d13"), ("prodos", "5.25in", "po"), ("cpm2", "5.25in", "do"), ("fat", "3.5in-ibm-720", "img"), ("pascal", "5.25in", "do")]:
         edge.append((d, base + len(edge), (o, k, ty, None), vol(o), True))
